@@ -71,4 +71,14 @@ PROPS = {
              "params": {"quick": {"holedepth": 1}, "thorough": {"holedepth": 1}}, "wall": {"thorough": "40m"}},
         ],
     },
+    "C03": {
+        "technique": "bounded symbolic execution of EVAL's try special form, malRecover, core.throw, lisperror.*, binder _recover on symbolic try/catch/finally programs, differential against the reference try semantics (value, thrown object, ordered effect trace incl. catch-variable observations); SMT (z3) decides assertions",
+        "outside": "finally bodies that throw; timeouts inside try (C07); positions (C17); nesting/forms beyond the bound",
+        "runs": [
+            {"pkg": "./c03", "harness": "Harness_try", "setup": "Setup",
+             "params": {"quick": {"nest": 0, "forms": 1}, "thorough": {"nest": 0, "forms": 2}}, "wall": {"thorough": "40m"}},
+            {"pkg": "./c03", "harness": "Harness_try_small", "setup": "Setup",
+             "params": {"quick": {"nest": 0, "forms": 2, "small": 1}, "thorough": {"nest": 1, "forms": 2, "small": 1}}, "wall": {"thorough": "40m"}},
+        ],
+    },
 }
